@@ -172,7 +172,9 @@ def run(ctx) -> Result:
     n = 150 if not ctx.thorough else 2500
     for i in range(n):
         cfg = pipecheck.CONFIGS[i % len(pipecheck.CONFIGS)]
-        if i % 2:
+        if i % 7 == 3:
+            hist = pipe.gen_history_renames(rng, n_renames=rng.randint(2, 5))     # take-overs, ancestor renames, out and back
+        elif i % 2:
             hist = pipe.gen_history_leaving(rng, n_ops=rng.randint(5, 12))
         else:
             hist = pipe.gen_history(rng, n_ops=rng.randint(4, 16), paced=False, burst_prob=rng.choice([0.2, 0.6, 0.9]),
